@@ -371,10 +371,11 @@ def compileSets (sh : Shape) : Box → Except String (List SetAct)
       | _, _, none => .error "rsize"
     else compileSets sh rs
 
-/-- insertion sort by period, stable (the fixed loop walks the periods in increasing order) -/
+/-- insertion sort by period, stable: rules of equal period stay in rule order, so the later one
+    wins as in the per-period map (the fixed loop walks the periods in increasing order) -/
 def insertByTick (a : SetAct) : List SetAct → List SetAct
   | [] => [a]
-  | b :: bs => if a.tick < b.tick then a :: b :: bs else b :: insertByTick a bs
+  | b :: bs => if a.tick ≤ b.tick then a :: b :: bs else b :: insertByTick a bs
 
 def sortByTick : List SetAct → List SetAct
   | [] => []
